@@ -338,7 +338,11 @@ func (e *Engine) globalPtr(st *State, g *ssa.Global) PtrV {
 	name := g.Pkg.Pkg.Path() + "." + g.Name()
 	var v Value
 	if ptr, ok := e.NativeGlob[name]; ok {
-		v = e.FromNative(st, reflect.ValueOf(ptr).Elem(), elemT)
+		if f, isF := ptr.(func() reflect.Value); isF {
+			v = e.FromNative(st, f(), elemT)
+		} else {
+			v = e.FromNative(st, reflect.ValueOf(ptr).Elem(), elemT)
+		}
 	} else if e.InterpPkgs[g.Pkg.Pkg.Path()] || strings.HasSuffix(g.Name(), "init$guard") {
 		v = e.zero(elemT)
 	} else {
